@@ -1332,7 +1332,16 @@ def bounded():
 
 
 def build_cases(tier="quick"):
-    return stack_cases() + limit_cases() + env_cases() + memory_cases() + halt_cases() + sha3_cases() + deviation_cases()
+    # a reported end state is only real if no other path or frame can change it: ownership of what a forked path
+    # gets (C02), exact restoration after a failed call or creation and message construction (C09)
+    from contracts import c02, c09
+
+    ref = []
+    for c in c02.path_cases():
+        ref.append(Case(f"{PROP}/" + c.unit.split("/", 1)[1] + "#fork-ownership", c.case, c.harness, replay=c.replay, sources=c.sources))
+    for c in c09.callback_cases() + c09.create_cases():
+        ref.append(Case(f"{PROP}/" + c.unit.split("/", 1)[1] + "#frame-end", c.case, c.harness, replay=c.replay, sources=c.sources))
+    return stack_cases() + limit_cases() + env_cases() + memory_cases() + halt_cases() + sha3_cases() + deviation_cases() + ref
 
 
 ASSUMPTIONS = [
